@@ -14,7 +14,7 @@ def run(tier, seed, t0):
     return daemon.run_group(PROP, tier, seed, t0, FAMILIES, "TraceBrowse", "TraceBrowse.cfg", PREFIXES, mcs,
                             ['C20.metrics', 'C20.empty', 'C20.cache-notforus', 'C20.cache-forget'], ASSUME + cachemech.ASSUME, RULE + cachemech.RULE,
                             n_quick=80, n_thorough=2000,
-                            pre=lambda v, t, s: cachemech.step(PROP, PREFIXES, ["MCCacheSub.cfg"], v, t, s))
+                            pre=lambda v, t, s: cachemech.step(PROP, PREFIXES, ["MCCacheSub.cfg"], v, t, s, mc_thorough=["MCCacheSubT.cfg"]))
 
 
 def replay(path, seed):
